@@ -33,7 +33,7 @@ SumSeq(s) == FoldLeft(LAMBDA a, b : a + b, 0, s)
 -----------------------------------------------------------------------------
 (* The fixed test-bed world (harness/cmd/orbsim/world.go)                  *)
 
-Acct  == {"orb", "dust", "esc0", "esc1", "U", "F1", "F2", "M", "cctp", "warp", "xfer", "pool"}
+Acct  == {"orb", "dust", "esc0", "esc1", "U", "F1", "F2", "M", "cctp", "warp", "hyp", "xfer", "pool"}
 Denom == {"uusdc", "ustake", "uswap", "ibc"}   \* "ibc" = all ibc/HASH vouchers, summed
 NativeDenoms == {"uusdc", "ustake"}
 MintingDenom == "uusdc"
@@ -44,9 +44,11 @@ HypTokens    == {"T1", "T2"}
 OriginDenom(tok) == IF tok = "T1" THEN "uusdc" ELSE "ustake"
 HypRouters   == {1, 2}
 HypNobleDomains == {1196573006, 1313817164}
-KnownHooks   == {"NONE", "H_NOOP", "H_DEFAULT"}
+KnownHooks   == {"NONE", "H_NOOP", "H_DEFAULT", "H_IGP"}
+\* the interchain gas paymaster of the test-bed charges in IgpDenom; required payment = gas limit
+IgpDenom     == "ustake"
 Bytes32      == {"MINT_A", "MINT_B", "MINT_ZERO", "CALLER_A", "CALLER_B", "R_A", "R_B",
-                 "T1", "T2", "T_UNK", "H_UNK", "H_NOOP", "H_DEFAULT"}
+                 "T1", "T2", "T_UNK", "H_UNK", "H_NOOP", "H_DEFAULT", "H_IGP"}
 BankBlocked  == {"dust"}               \* blocked_module_accounts_override (tracked ones)
 MaxFeeRecipients == 5
 MaxBatch     == 100
@@ -290,7 +292,7 @@ CpOf(fw) == IF PidOf(fw.pid) = "INT" THEN "noble" ELSE ToString(fw.dom)
 NoReq == <<>>
 BaseReq == [route |-> "", withCaller |-> FALSE, from |-> "orb", amt |-> 0, denom |-> "",
             dom |-> 0, mint |-> "NONE", caller |-> "NONE", tok |-> "NONE", rcp |-> "NONE",
-            hook |-> "NONE", gas |-> 0, maxfee |-> 0, meta |-> "NONE", to |-> "NONE"]
+            hook |-> "NONE", gas |-> 0, maxfee |-> 0, mfd |-> "NONE", meta |-> "NONE", to |-> "NONE"]
 
 \* the deposit-replacement request: the message's fields, the orbiter account as owner (C05)
 ReplaceReq(in) == [BaseReq EXCEPT !.route = "CCTP_REPLACE", !.mint = in.fw.mint, !.caller = in.fw.caller, !.denom = "NONE",
@@ -303,7 +305,7 @@ ExpectedReq(fw, coin) ==
                          !.denom = coin.d, !.dom = fw.dom, !.mint = fw.mint, !.caller = fw.caller]
     [] PidOf(fw.pid) = "HYP" ->
          [BaseReq EXCEPT !.route = "HYP", !.amt = coin.n, !.denom = coin.d, !.dom = fw.dom, !.tok = fw.tok,
-                         !.rcp = fw.rcp, !.hook = fw.hook, !.gas = fw.gas, !.maxfee = fw.maxfee, !.meta = fw.meta]
+                         !.rcp = fw.rcp, !.hook = fw.hook, !.gas = fw.gas, !.maxfee = fw.maxfee, !.mfd = fw.mfd, !.meta = fw.meta]
     [] OTHER ->
          [BaseReq EXCEPT !.route = "INT", !.amt = coin.n, !.denom = coin.d, !.to = RcptAcct(fw.to)]
 
@@ -342,6 +344,18 @@ Forward(s, fw, coin, F) ==
      ELSE IF Restricted(s, "orb", "warp", coin.d) THEN fail("hyp-send")
      ELSE IF fw.dom \notin HypRouters THEN fail("hyp-no-router")
      ELSE IF fw.hook \notin KnownHooks THEN fail("hyp-unknown-hook")
+     ELSE IF fw.hook = "H_IGP" THEN
+        \* InterchainGasPaymaster: the SENDER (the orbiter account) pays the required amount, at most
+        \* max_fee, in the paymaster's denom - AFTER the collateral has been locked
+        LET locked == Move(s, "orb", "warp", coin.d, coin.n)
+            required == fw.gas
+            offered == IF fw.mfd = IgpDenom THEN fw.maxfee ELSE 0
+        IN IF fw.maxfee = 0 THEN fail("igp-maxfee-required")
+           ELSE IF required > offered THEN fail("igp-exceeds-maxfee")
+           ELSE IF required = 0 THEN fail("igp-zero-payment")
+           ELSE IF locked.bal["orb"][IgpDenom] < required THEN fail("igp-insufficient-funds")
+           ELSE [ok |-> TRUE, why |-> "", req |-> <<ExpectedReq(fw, coin)>>, fired |-> {},
+                 st |-> Move(locked, "orb", "hyp", IgpDenom, required)]
      ELSE [ok |-> TRUE, why |-> "", req |-> <<ExpectedReq(fw, coin)>>, fired |-> {},
            st |-> Move(s, "orb", "warp", coin.d, coin.n)]
   ELSE \* INT
@@ -669,7 +683,7 @@ QueryView(s) ==
     qParams |-> IF s.hasParams THEN s.maxPT ELSE 0, qParamsOk |-> TRUE ]
 
 DefFwS == [pid |-> "INT", at |-> "INT", dom |-> 0, mint |-> "NONE", caller |-> "NONE", tok |-> "NONE",
-           rcp |-> "NONE", hook |-> "NONE", gas |-> 0, maxfee |-> 0, meta |-> "NONE", to |-> "U", pt |-> 0]
+           rcp |-> "NONE", hook |-> "NONE", gas |-> 0, maxfee |-> 0, mfd |-> "uusdc", meta |-> "NONE", to |-> "U", pt |-> 0]
 \* identifier entry points (C20): what each entry point answers for counterparty spelling e
 PidNum(p) == CASE p = "IBC" -> "1" [] p = "CCTP" -> "2" [] p = "HYP" -> "3" [] p = "INT" -> "4" [] OTHER -> "0"
 IdentModel(s, in) ==
